@@ -72,14 +72,20 @@ def _check_bp(exons, merge):
 STR = ("+", "-")
 
 
-def _ok(s0, l0, s1, l1, s2, l2, t0, t1, t2):
-    if S0 >= 0 and s0 != S0:
+S1 = hx.bound("VB_S1", -1)       # partition: start of the second exon
+FLAG = hx.bound("VB_FLAG", -1)   # partition: the boolean argument (merge / exclude_components)
+
+
+def _ok(s0, l0, s1, l1, s2, l2, t0, t1, t2, flag=None):
+    """first exon starts at 1 on '+' (translation / strand symmetry); starts strictly increasing ('order_by start'
+    leaves ties unordered)"""
+    if S1 >= 0 and s1 != S1:
         return False
-    if not (1 <= s0 <= 3 and 1 <= s1 <= 4 and 1 <= s2 <= 5 and 0 <= l0 <= 2 and 0 <= l1 <= 2 and 0 <= l2 <= 1):
+    if FLAG >= 0 and flag is not None and flag != bool(FLAG):
         return False
-    if s0 == s1 or s1 == s2 or s0 == s2:
-        return False          # distinct starts: 'order_by start' leaves ties unordered
-    return t0 in STR and t1 in STR and t2 in STR
+    if not (s0 == 1 and 2 <= s1 <= 4 and s1 < s2 <= 6 and 0 <= l0 <= 2 and 0 <= l1 <= 1 and l2 == 0):
+        return False
+    return t0 == "+" and t1 in STR and t2 in STR
 
 
 def _ex(s0, l0, s1, l1, s2, l2, t0, t1, t2):
@@ -88,7 +94,7 @@ def _ex(s0, l0, s1, l1, s2, l2, t0, t1, t2):
 
 def cond_bp(s0: int, l0: int, s1: int, l1: int, s2: int, l2: int, t0: str, t1: str, t2: str, merge: bool) -> bool:
     """
-    pre: _ok(s0, l0, s1, l1, s2, l2, t0, t1, t2)
+    pre: _ok(s0, l0, s1, l1, s2, l2, t0, t1, t2, merge)
     post: _
     """
     return _check_bp(_ex(s0, l0, s1, l1, s2, l2, t0, t1, t2), merge) is None
@@ -96,10 +102,10 @@ def cond_bp(s0: int, l0: int, s1: int, l1: int, s2: int, l2: int, t0: str, t1: s
 
 def reach_bp(s0: int, l0: int, s1: int, l1: int, s2: int, l2: int, t0: str, t1: str, t2: str, merge: bool) -> bool:
     """
-    pre: _ok(s0, l0, s1, l1, s2, l2, t0, t1, t2)
+    pre: _ok(s0, l0, s1, l1, s2, l2, t0, t1, t2, merge)
     post: not _
     """
-    return _check_bp(_ex(s0, l0, s1, l1, s2, l2, t0, t1, t2), merge) is None and merge and s1 <= s0 + l0 + 1 and s1 > s0
+    return _check_bp(_ex(s0, l0, s1, l1, s2, l2, t0, t1, t2), merge) is None and (not merge or s1 <= s0 + l0 + 1)
 
 
 def diag_bp(s0, l0, s1, l1, s2, l2, t0, t1, t2, merge):
@@ -145,7 +151,7 @@ def _check_all(exons, exclude):
 
 def cond_all(s0: int, l0: int, s1: int, l1: int, s2: int, l2: int, t0: str, t1: str, t2: str, exclude: bool) -> bool:
     """
-    pre: _ok(s0, l0, s1, l1, s2, l2, t0, t1, t2)
+    pre: _ok(s0, l0, s1, l1, s2, l2, t0, t1, t2, exclude)
     post: _
     """
     return _check_all(_ex(s0, l0, s1, l1, s2, l2, t0, t1, t2), exclude) is None
@@ -153,10 +159,10 @@ def cond_all(s0: int, l0: int, s1: int, l1: int, s2: int, l2: int, t0: str, t1: 
 
 def reach_all(s0: int, l0: int, s1: int, l1: int, s2: int, l2: int, t0: str, t1: str, t2: str, exclude: bool) -> bool:
     """
-    pre: _ok(s0, l0, s1, l1, s2, l2, t0, t1, t2)
+    pre: _ok(s0, l0, s1, l1, s2, l2, t0, t1, t2, exclude)
     post: not _
     """
-    return _check_all(_ex(s0, l0, s1, l1, s2, l2, t0, t1, t2), exclude) is None and t0 == t1 and s0 < s1 <= s0 + l0 + 1
+    return _check_all(_ex(s0, l0, s1, l1, s2, l2, t0, t1, t2), exclude) is None and (S1 > 3 or (t0 == t1 and s1 <= s0 + l0 + 1))
 
 
 def diag_all(s0, l0, s1, l1, s2, l2, t0, t1, t2, exclude):
